@@ -109,7 +109,8 @@ func init() {
 			}
 			return e.call(caller, 0, fn, a)
 		},
-		"vpHash64": vpHash64,
+		"vpReplayLabel": func(e *Exec, _ *frame, _ *ssa.Function, a []Value) Value { return a[0] },
+		"vpHash64":      vpHash64,
 		"vpNote": func(e *Exec, _ *frame, _ *ssa.Function, a []Value) Value {
 			e.obs = append(e.obs, obsRec{tag: argStr(e, a[0])})
 			return nil
